@@ -801,9 +801,13 @@ class Engine:
         fn = fr.fn.demangled if fr else (self.current_top or '?')
         line = ins.line if ins is not None and hasattr(ins, 'line') else None
         if name is None:
-            name = '%s#%s#%s' % (short_fn(fn), kind, line)
-            if ins is not None and ins.dest:
-                name += '#' + ins.dest
+            if kind in SAFETY_KINDS and ins is not None and ins.dest:
+                # safety obligations are keyed by the IR value they guard (stable when unrelated lines move)
+                name = '%s#%s#%s' % (short_fn(fn), kind, ins.dest)
+            else:
+                name = '%s#%s#%s' % (short_fn(fn), kind, line)
+                if ins is not None and ins.dest:
+                    name += '#' + ins.dest
         goal = simp(goal) if not isinstance(goal, bool) else z3.BoolVal(goal)
         if z3.is_true(goal):
             self.trivial = getattr(self, 'trivial', 0) + 1
@@ -927,6 +931,7 @@ class Contract:
         self.lang_requires = lang_requires or (lambda c: [])
         dom = requires or (lambda c: [])
         self.domain_requires = dom
+        self.total = requires is None      # no domain precondition: the contract may be used at any call site
         self.requires = (lambda c, _l=self.lang_requires, _d=dom: list(_l(c)) + list(_d(c)))
         self.ensures = ensures or (lambda c: [])
         self.assigns = assigns       # None => writes nothing outside its own frame
